@@ -174,10 +174,17 @@ func genTargets() []string {
 		}
 	}
 	rec("", 0)
+	// parameter values that a second decoding would change: a literal '+' and an escaped '%' (the routed path is the
+	// path decoded once, "/%41" for "/%2541"; a captured value is a substring of it)
+	for _, sp := range []string{"a+b", "%2541"} {
+		out = append(out, "/"+sp, "/"+sp+"/", "/a/"+sp, "/"+sp+"/a", "/"+sp+"/b", "/a/"+sp+"/b", "/a/"+sp+"/", "/a/b/"+sp, "/"+sp+"/a/b", "/ab/"+sp+"/c")
+	}
 	return out
 }
 
 var (
+	// tpaths[i] is the routed path of targets[i] (decoded once); they are equal for targets without an escape
+	tpaths      []string
 	targets     []string
 	targetsOnce sync.Once
 	postPats    []*pattern // the fixed POST tree
@@ -197,8 +204,12 @@ func setup() {
 		var u protocol.URI
 		for _, t := range targets {
 			u.Parse([]byte("h"), []byte(t))
-			if string(u.Path()) != t {
+			if string(u.Path()) != t && !strings.Contains(t, "%") {
 				panic(fmt.Sprintf("c06: target %q is not in normal form (URI.Path()=%q)", t, u.Path()))
+			}
+			tpaths = append(tpaths, strings.ReplaceAll(t, "%25", "%"))
+			if string(u.Path()) != tpaths[len(tpaths)-1] {
+				panic(fmt.Sprintf("c06: target %q: routed path %q, expected %q", t, u.Path(), tpaths[len(tpaths)-1]))
 			}
 		}
 		for _, s := range postRoutes {
@@ -207,7 +218,7 @@ func setup() {
 		postRef = make([]refRes, len(targets))
 		postTarget = make([]bool, len(targets))
 		for i, t := range targets {
-			postRef[i] = refMatch(postPats, t)
+			postRef[i] = refMatch(postPats, tpaths[i])
 			postTarget[i] = strings.Count(strings.TrimSuffix(t, "/"), "/") <= 2
 			if !postTarget[i] {
 				continue
@@ -531,6 +542,9 @@ func (w *worker) build(kind int, order []*pattern) (e *route.Engine, panicMsg st
 	e.POST(postRoutes[0], w.hPost[0])
 	for k, p := range order {
 		base, rel := splitGroup(p.s)
+		if k%2 == 1 && len(p.s) > 1 && strings.HasSuffix(p.s, "/") {
+			base, rel = p.s, "" // a group whose base path carries the trailing slash, route registered with an empty relative path
+		}
 		e.Group(base, w.hGrp[k]).GET(rel, w.hMain[k])
 		if k == 0 {
 			e.POST(postRoutes[1], w.hPost[1])
@@ -617,8 +631,8 @@ func (w *worker) runSet(set []*pattern) bool {
 	}
 	if !conflict {
 		w.refNT = 0
-		for i, t := range targets {
-			w.ref[i] = refMatch(set, t)
+		for i := range targets {
+			w.ref[i] = refMatch(set, tpaths[i])
 			if w.ref[i].ambiguous {
 				panic("c06: reference ambiguous for a conflict-free set " + fmt.Sprint(names(set)))
 			}
@@ -787,7 +801,7 @@ func (w *worker) one(bg context.Context, e *route.Engine, ctx *app.RequestContex
 		return 0xff
 	}
 
-	if string(ctx.Request.URI().Path()) != target && ctx.Response.StatusCode()/100 != 3 {
+	if string(ctx.Request.URI().Path()) != tpaths[ti] && ctx.Response.StatusCode()/100 != 3 {
 		panic(fmt.Sprintf("c06: engine routed %q on path %q", target, ctx.Request.URI().Path()))
 	}
 	r := &w.rec
